@@ -13,13 +13,13 @@ Schema == [
   AclAccountAdd |-> <<
       F("identity", "key_pub", "", FALSE, ""),
       F("permissions", "enum", "", FALSE, ""),
-      F("metadata", "bytes", "", FALSE, ""),
-      F("encryptedReadKey", "ct_x25519", "", FALSE, "") >>,
+      F("metadata", "ct_x25519", "", FALSE, ""),
+      F("encryptedReadKey", "ct_x25519", "Key", FALSE, "") >>,
   AclAccountInvite |-> <<
       F("inviteKey", "key_pub", "", FALSE, ""),
       F("inviteType", "enum", "", FALSE, ""),
       F("permissions", "enum", "", FALSE, ""),
-      F("encryptedReadKey", "ct_x25519", "", FALSE, "") >>,
+      F("encryptedReadKey", "ct_x25519", "Key", FALSE, "") >>,
   AclAccountInviteChange |-> <<
       F("inviteRecordId", "id", "", FALSE, ""),
       F("permissions", "enum", "", FALSE, "") >>,
@@ -27,8 +27,8 @@ Schema == [
       F("identity", "key_pub", "", FALSE, ""),
       F("inviteRecordId", "id", "", FALSE, ""),
       F("inviteIdentitySignature", "sig", "", FALSE, ""),
-      F("metadata", "bytes", "", FALSE, ""),
-      F("encryptedReadKey", "ct_x25519", "", FALSE, ""),
+      F("metadata", "ct_x25519", "", FALSE, ""),
+      F("encryptedReadKey", "ct_x25519", "Key", FALSE, ""),
       F("permissions", "enum", "", FALSE, "") >>,
   AclAccountInviteRevoke |-> <<
       F("inviteRecordId", "id", "", FALSE, "") >>,
@@ -43,7 +43,7 @@ Schema == [
   AclAccountRequestAccept |-> <<
       F("identity", "key_pub", "", FALSE, ""),
       F("requestRecordId", "id", "", FALSE, ""),
-      F("encryptedReadKey", "ct_x25519", "", FALSE, ""),
+      F("encryptedReadKey", "ct_x25519", "Key", FALSE, ""),
       F("permissions", "enum", "", FALSE, "") >>,
   AclAccountRequestCancel |-> <<
       F("recordId", "id", "", FALSE, "") >>,
@@ -53,7 +53,7 @@ Schema == [
       F("inviteIdentity", "key_pub", "", FALSE, ""),
       F("inviteRecordId", "id", "", FALSE, ""),
       F("inviteIdentitySignature", "sig", "", FALSE, ""),
-      F("metadata", "bytes", "", FALSE, "") >>,
+      F("metadata", "ct_x25519", "", FALSE, "") >>,
   AclAccountRequestRemove |-> << >>,
   AclAccountsAdd |-> <<
       F("additions", "msg", "AclAccountAdd", TRUE, "") >>,
@@ -78,7 +78,7 @@ Schema == [
       F("aclContent", "msg", "AclContentValue", TRUE, "") >>,
   AclEncryptedReadKey |-> <<
       F("identity", "key_pub", "", FALSE, ""),
-      F("encryptedReadKey", "ct_x25519", "", FALSE, "") >>,
+      F("encryptedReadKey", "ct_x25519", "Key", FALSE, "") >>,
   AclOneToOneInfo |-> <<
       F("owner", "key_pub", "", FALSE, ""),
       F("writers", "key_pub", "", TRUE, "") >>,
@@ -88,8 +88,8 @@ Schema == [
   AclReadKeyChange |-> <<
       F("accountKeys", "msg", "AclEncryptedReadKey", TRUE, ""),
       F("metadataPubKey", "key_pub", "", FALSE, ""),
-      F("encryptedMetadataPrivKey", "ct_aes", "", FALSE, ""),
-      F("encryptedOldReadKey", "ct_aes", "", FALSE, ""),
+      F("encryptedMetadataPrivKey", "ct_aes", "Key", FALSE, ""),
+      F("encryptedOldReadKey", "ct_aes", "Key", FALSE, ""),
       F("inviteKeys", "msg", "AclEncryptedReadKey", TRUE, "") >>,
   AclRecord |-> <<
       F("aclPayload", "emb", "RawRecord", FALSE, ""),
@@ -98,12 +98,12 @@ Schema == [
       F("identity", "key_pub", "", FALSE, ""),
       F("masterKey", "key_pub", "", FALSE, ""),
       F("spaceId", "string", "", FALSE, ""),
-      F("encryptedReadKey", "ct_x25519", "", FALSE, ""),
+      F("encryptedReadKey", "ct_x25519", "Key", FALSE, ""),
       F("timestamp", "varint", "", FALSE, ""),
       F("identitySignature", "sig", "", FALSE, ""),
       F("metadataPubKey", "key_pub", "", FALSE, ""),
-      F("encryptedMetadataPrivKey", "ct_aes", "", FALSE, ""),
-      F("encryptedOwnerMetadata", "bytes", "", FALSE, ""),
+      F("encryptedMetadataPrivKey", "ct_aes", "Key", FALSE, ""),
+      F("encryptedOwnerMetadata", "ct_x25519", "", FALSE, ""),
       F("oneToOneInfo", "msg", "AclOneToOneInfo", FALSE, ""),
       F("options", "msg", "AclSpaceOptions", FALSE, "") >>,
   AclSpaceOptions |-> <<
@@ -135,8 +135,8 @@ Schema == [
       F("id", "string", "", FALSE, ""),
       F("head", "string", "", FALSE, "") >>,
   Key |-> <<
-      F("Type", "enum", "", FALSE, ""),
-      F("Data", "bytes", "", FALSE, "") >>,
+      F("Type", "keytype", "", FALSE, ""),
+      F("Data", "keydata", "", FALSE, "") >>,
   PayloadSignedPeerIds |-> <<
       F("identity", "key_pub", "", FALSE, ""),
       F("sign", "sig", "", FALSE, "") >>,
